@@ -1161,7 +1161,10 @@ Section Resp.
   Hypothesis I_trans : forall a b c, I a b -> I b c -> I a c.
   Hypothesis I_heap : forall h s, I s (upd_heap h s).
   Hypothesis I_globals : forall g s, I s (upd_globals g s).
-  Hypothesis I_yield : forall y b s, I s (upd_yield y b s).
+  (* the one update of the yield counter / stop flag that [tick] performs *)
+  Hypothesis I_yield : forall s, st_stopped s = false ->
+    I s (upd_yield (S (st_yields s))
+                   (match st_stop_at s with Some k => Nat.eqb k (st_yields s) | None => false end) s).
   Hypothesis I_input : forall i s, I s (upd_input i s).
   Hypothesis I_tests : forall t f s, I s (upd_tests t f s).
   Hypothesis I_emit : forall ev s, I s (upd_trace (ev :: st_trace s) s).
@@ -1191,7 +1194,10 @@ Section Resp.
     inversion H; subst; Iauto.
 
   Lemma resp_tick : resp tick.
-  Proof. unfold tick. raw. Qed.
+  Proof.
+    intros s r s' H. unfold tick in H. destruct (st_stopped s) eqn:S; [inversion H; apply I_refl|].
+    cbv zeta in H. destruct (_ && _); inversion H; subst; apply I_yield; exact S.
+  Qed.
   Lemma resp_alloc v : resp (alloc v).
   Proof. unfold alloc, halloc. raw. Qed.
   Lemma resp_load l : resp (load l).
@@ -1383,7 +1389,7 @@ Lemma extends_trans a b c : extends a b -> extends b c -> extends a c.
 Proof. intros [x Hx] [y Hy]. exists (y ++ x). rewrite Hy, Hx, app_assoc. reflexivity. Qed.
 
 Definition eval_extends := eval_resp extends extends_refl extends_trans
-  (fun h s => extends_refl s) (fun g s => extends_refl s) (fun y b s => extends_refl s)
+  (fun h s => extends_refl s) (fun g s => extends_refl s) (fun s _ => extends_refl _)
   (fun i s => extends_refl s) (fun t f s => extends_refl s)
   (fun ev s => ex_intro _ [ev] eq_refl).
 
